@@ -82,6 +82,8 @@ def obligations(ctx, tier):
             if d.get("trait") not in ("core::convert::TryFrom", "BTryFrom") or di not in F.bodies or d["kind"] != "AssocFn":
                 continue
             out += core.p_minus(K, PROP, fid, set(), aud)
+            # information flow: no rejection is decided without looking at the value (0 is representable everywhere)
+            out.append(core.t_row(K, PROP, fid, source_locals=(), content_locals=(1,), any_err=True))
     return out
 
 
